@@ -67,7 +67,7 @@ state before `Flush`, `B` is a well-formed decoder input, and the returned bytes
 theorem flush_facts (e : Enc) (h : RegOk e) (hn : 0x8000 ≤ e.a) :
     ∃ ef bytes last len, flush e = some (ef, bytes) ∧ BOk (finalB ef.buf last) last len ∧
       FE (finalB ef.buf last) last e ∧ bytes.length = len ∧
-      (∀ k, k < len → bytes[k]? = some (finalB ef.buf last (k + 1))) ∧ e.bp < last := by
+      (∀ k, k < len → bytes[k]? = some (finalB ef.buf last (k + 1))) ∧ e.bp < last ∧ 1 ≤ len := by
   have hah := h.ahi; have hcl := h.ctlo; have hch := h.cthi
   have hK := pow_pos2 e.ct.toNat
   have hcA := c_lt_of_A hK h.A
@@ -184,8 +184,8 @@ theorem flush_facts (e : Enc) (h : RegOk e) (hn : 0x8000 ≤ e.a) :
   by_cases hff : rd e4.buf e4.bp ≠ 255
   · -- the last byte is kept: len = last
     rw [if_pos hff]
-    refine ⟨_, _, e4.bp, e4.bp, rfl, ?_, hfe, ?_, ?_, by omega⟩
-    · exact ⟨fun j hj => hpad j (by omega), by omega, Nat.le_refl _, by omega, hmark,
+    refine ⟨_, _, e4.bp, e4.bp, rfl, ?_, hfe, ?_, ?_, by omega, by omega⟩
+    · exact ⟨fun j hj => hpad j (by omega), by omega, Nat.le_refl _, hmark,
         by rw [← hst e4.bp (Nat.le_refl _)]; simpa using hff, hbytes⟩
     · unfold getBuffer
       simp only []
@@ -206,8 +206,8 @@ theorem flush_facts (e : Enc) (h : RegOk e) (hn : 0x8000 ≤ e.a) :
       · exact absurd (by omega) hff
       · exact h1
       · exact absurd (by omega) hff
-    refine ⟨_, _, e4.bp, e4.bp - 1, rfl, ?_, hfe, ?_, ?_, by omega⟩
-    · refine ⟨?_, by omega, by omega, by omega, hmark, ?_, hbytes⟩
+    refine ⟨_, _, e4.bp, e4.bp - 1, rfl, ?_, hfe, ?_, ?_, by omega, by omega⟩
+    · refine ⟨?_, by omega, by omega, hmark, ?_, hbytes⟩
       · intro j hj
         rcases Nat.lt_or_ge e4.bp j with h1 | h1
         · exact hpad j h1
@@ -271,9 +271,8 @@ def decV (bytes : List Nat) (n b1 a : Nat) : Dec :=
 /-- `NewMQDecoder` on the encoder's bytes is in lock-step with `NewMQEncoder` -/
 theorem decNew_rel (B : Nat → Nat) (last len : Nat) (hB : BOk B last len) (n : Nat) (bytes : List Nat)
     (hlen : bytes.length = len) (hbytes : ∀ k, k < len → bytes[k]? = some (B (k + 1)))
-    (hfe : FE B last (Enc.new n)) :
+    (hl1 : 1 ≤ len) (hfe : FE B last (Enc.new n)) :
     ∃ d0, Dec.new bytes n = some d0 ∧ Rel B last len (Enc.new n) d0 := by
-  have hl1 := hB.len1
   have hsz : (bytes ++ [0xFF, 0xFF]).toArray.size = len + 2 := by simp [hlen]
   have hdata : ∀ k, k < len + 2 → rd (bytes ++ [0xFF, 0xFF]).toArray k = B (k + 1) := by
     intro k hk
@@ -349,10 +348,10 @@ theorem mq_roundtrip (n : Nat) (ds : List (Nat × Nat)) (hds : ∀ x ∈ ds, x.1
     ∃ bytes, encodeBytes n ds = some bytes ∧ decodeBits bytes n (ds.map (·.2)) = some (ds.map (·.1)) := by
   obtain ⟨h0, hn0, hs0⟩ := new_ok n
   obtain ⟨e, he, hr, hn, _⟩ := encodeAll_spec ds (Enc.new n) h0 hn0 (by intro x hx; rw [hs0]; exact (hds x hx).2)
-  obtain ⟨ef, bytes, last, len, hfl, hB, hfe, hlen, hbytes, _⟩ := flush_facts e hr hn
+  obtain ⟨ef, bytes, last, len, hfl, hB, hfe, hlen, hbytes, _, hl1⟩ := flush_facts e hr hn
   have hfe0 : FE (finalB ef.buf last) last (Enc.new n) :=
     encodeAll_back _ last ds (Enc.new n) e h0 hn0 (by intro x hx; rw [hs0]; exact (hds x hx).2) he hfe
-  obtain ⟨d0, hd0, hrel0⟩ := decNew_rel _ last len hB n bytes hlen hbytes hfe0
+  obtain ⟨d0, hd0, hrel0⟩ := decNew_rel _ last len hB n bytes hlen hbytes hl1 hfe0
   obtain ⟨d', hd', _⟩ := decodeAll_rel _ last len hB ds (Enc.new n) d0 e h0 hn0
     (by intro x hx; rw [hs0]; exact hds x hx) hrel0 he hfe
   refine ⟨bytes, ?_, ?_⟩
